@@ -462,12 +462,24 @@ Definition done_spec (v : val) (log : exec_log) (left : list nid) : Prop :=
     (forall y i, In (y, i) log -> y <> END /\ exists n, In n g /\ n_id n = y /\ dins (n_preds n) i) /\
     (forall y, In y (map fst O) -> y <> START -> In y (map fst log)).
 
-(* why a run fails: nothing is running any more, or the task the schedule picks fails *)
+(* why a run fails: nothing is running any more, or the task the schedule picks fails, or a node
+   whose state pre-handler fails has become ready (submit fails) *)
 Definition fail_spec (pick : list (node * val) -> nat) : Prop :=
   (exists s O log, RI s [] O log /\ In START (map fst O)) \/
   (exists s running O log n i, RI s running O log /\ In START (map fst O) /\
      nth_error running (Nat.modulo (pick running) (List.length running)) = Some (n, i) /\
-     failed (n, i) = true).
+     failed (n, i) = true) \/
+  (exists n, In n g /\ n_id n <> END /\ n_fail n = 4%N).
+
+Lemma prefail_in s running O log ts :
+  RI s (running ++ ts) O log -> existsb prefail ts = true ->
+  exists n, In n g /\ n_id n <> END /\ n_fail n = 4%N.
+Proof.
+  intros R H. apply existsb_exists in H. destruct H as ([n i] & Hin & Hp).
+  exists n. destruct (ri_run _ _ _ _ R n i (in_or_app _ _ _ (or_intror Hin))) as (A1 & A2 & _).
+  split; [exact A1|]. split; [exact A2|].
+  - unfold prefail in Hp. simpl in Hp. apply N.eqb_eq in Hp. exact Hp.
+Qed.
 
 Lemma ri_len s running O log : RI s running O log -> List.length O <= List.length g + 1.
 Proof.
@@ -495,7 +507,7 @@ Proof.
     + assert (Hin : In (n, inp) running) by (eapply nth_error_In; eassumption).
       destruct (ri_run _ _ _ _ R n inp Hin) as (A1 & A2 & A3 & A4 & A5).
       destruct (failed (n, inp)) eqn:Ef.
-      * assert (out = OFail) by (inversion E; auto). subst out. right.
+      * assert (out = OFail) by (inversion E; auto). subst out. right. left.
         exists s, running, O, log, n, inp. auto.
       * assert (Hf : n_fail n = 0%N).
         { unfold failed in Ef. simpl in Ef. apply negb_false_iff in Ef. apply N.eqb_eq in Ef. exact Ef. }
@@ -551,9 +563,12 @@ Proof.
            ++ apply (ri_log_nd _ _ _ _ R).
            ++ apply (ri_log_in _ _ _ _ R).
            ++ intros y Hy Hne. apply Hlst. split; [|exact Hne]. destruct Hy as [K|K]; auto.
-        -- specialize (IH s' (rest ++ ts) ((n_id n, node_out (n_id n) inp) :: O) (log ++ log_of ts)
+        -- destruct (existsb prefail ts) eqn:Epf.
+           ++ assert (out = OFail) by (inversion E; auto). subst out. right. right.
+              eapply prefail_in; eassumption.
+           ++ specialize (IH s' (rest ++ ts) ((n_id n, node_out (n_id n) inp) :: O) (log ++ log_of ts)
                           out log' left G (or_intror HS) E).
-           destruct out; auto. simpl in IH. lia.
+              destruct out; auto. simpl in IH. lia.
     + assert (out = OFail) by (inversion E; auto). subst out. left. exists s, O, log. split; [|exact HS].
       apply nth_error_None in En.
       destruct running as [|t r]; [exact R|]. exfalso.
@@ -614,7 +629,9 @@ Proof.
         specialize (G Hlst).
         destruct (calc_next Dag g s [(n_id n, node_out (n_id n) inp)]) as [vE|ts s'] eqn:Ec.
         -- inversion E; subst. split; [apply (ri_log_nd _ _ _ _ R)|apply (ri_log_in _ _ _ _ R)].
-        -- exact (IH _ _ _ _ _ _ _ G E).
+        -- destruct (existsb prefail ts) eqn:Epf.
+           ++ inversion E; subst. split; [apply (ri_log_nd _ _ _ _ R)|apply (ri_log_in _ _ _ _ R)].
+           ++ exact (IH _ _ _ _ _ _ _ G E).
     + inversion E; subst. split; [apply (ri_log_nd _ _ _ _ R)|apply (ri_log_in _ _ _ _ R)].
 Qed.
 
@@ -636,9 +653,11 @@ Proof.
     + constructor.
     + intros y i [].
     + intros y [K|[]] Hne. simpl in K. congruence.
-  - intros E. pose proof (run_eager_spec pick fuel s ts [(START, input_val)] (log_of ts) out log left S0
+  - destruct (existsb prefail ts) eqn:Epf.
+    + intros E. inversion E; subst. right. right. apply (prefail_in s [] _ _ ts S0 Epf).
+    + intros E. pose proof (run_eager_spec pick fuel s ts [(START, input_val)] (log_of ts) out log left S0
                             (or_introl eq_refl) E) as K.
-    destruct out; auto. simpl in K. lia.
+      destruct out; auto. simpl in K. lia.
 Qed.
 
 (* ---- when nothing but failing tasks is running, every node that can deliver a value has
@@ -792,7 +811,7 @@ Definition failing_feed_end : Prop :=
 Lemma done_fail_absurd pick v l r : failing_feed_end -> done_spec v l r -> fail_spec pick -> False.
 Proof.
   intros H (nE & O & A1 & A2 & A2' & A3 & _)
-         [(s & O' & log & R & HS)|(s & running & O' & log & n & i & R & HS & En & Ef)].
+         [(s & O' & log & R & HS)|[(s & running & O' & log & n & i & R & HS & En & Ef)|(n & B1 & B2 & B4)]].
   - eapply (live_end_not_quiescent s [] O' log); try eassumption. intros t [].
   - assert (Hin : In (n, i) running) by (eapply nth_error_In; eassumption).
     destruct (ri_run _ _ _ _ R n i Hin) as (B1 & B2 & _).
@@ -801,7 +820,15 @@ Proof.
     destruct (ancestors_sound _ (H n B1 B3)) as [K|K]; [contradiction|].
     destruct (anc_dval nE v A1 A2 A3 _ K) as (w & Hw).
     destruct (dval_node_inv n w B1 Hw) as [K2 _]. contradiction.
+  - assert (B3 : n_fail n <> 0%N) by (rewrite B4; discriminate).
+    destruct (ancestors_sound _ (H n B1 B3)) as [K|K]; [contradiction|].
+    destruct (anc_dval nE v A1 A2 A3 _ K) as (w & Hw).
+    destruct (dval_node_inv n w B1 Hw) as [K2 _]. contradiction.
 Qed.
+
+(* every node whose state pre-handler fails feeds END (weaker than failing_feed_end) *)
+Definition prefail_feed_end : Prop :=
+  forall n, In n g -> n_fail n = 4%N -> In (n_id n) (ancestors g).
 
 (* ---- the schedule that avoids failing tasks delivers the value whenever some schedule does *)
 Lemma pick_ok_nth : forall running t,
@@ -822,13 +849,16 @@ Proof.
   rewrite Nat.mod_small in En by exact L. rewrite Eu in En. inversion En; subst. congruence.
 Qed.
 
-Lemma done_ok_fail_absurd v l r : done_spec v l r -> fail_spec pick_ok -> False.
+Lemma done_ok_fail_absurd v l r : prefail_feed_end -> done_spec v l r -> fail_spec pick_ok -> False.
 Proof.
-  intros (nE & O & A1 & A2 & A2' & A3 & _)
-         [(s & O' & log & R & HS)|(s & running & O' & log & n & i & R & HS & En & Ef)].
+  intros H (nE & O & A1 & A2 & A2' & A3 & _)
+         [(s & O' & log & R & HS)|[(s & running & O' & log & n & i & R & HS & En & Ef)|(n & B1 & B2 & B4)]].
   - eapply (live_end_not_quiescent s [] O' log); try eassumption. intros t [].
   - eapply (live_end_not_quiescent s running O' log); try eassumption.
     eapply pick_ok_nth; eassumption.
+  - destruct (ancestors_sound _ (H n B1 B4)) as [K|K]; [contradiction|].
+    destruct (anc_dval nE v A1 A2 A3 _ K) as (w & Hw).
+    destruct (dval_node_inv n w B1 Hw) as [K2 _]. rewrite B4 in K2. discriminate.
 Qed.
 
 End Eager.
@@ -884,18 +914,18 @@ Proof.
 Qed.
 
 Lemma eager_ok_complete g pick f fuel v l r :
-  NoDup (map n_id g) -> ~ In START (map n_id g) ->
+  NoDup (map n_id g) -> ~ In START (map n_id g) -> prefail_feed_end g ->
   eager pick g f = (ODone v, l, r) -> List.length g < fuel ->
   exists l' r', eager pick_ok g fuel = (ODone v, l', r') /\ Permutation (feeding g l) (feeding g l').
 Proof.
-  intros Hnd Hs E Hf.
+  intros Hnd Hs Hpf E Hf.
   pose proof (eager_spec g Hnd Hs pick f _ _ _ E) as D. simpl in D.
   pose proof (eager_fuel_enough g pick_ok fuel Hnd Hs Hf) as N.
   destruct (eager pick_ok g fuel) as [[o l'] r'] eqn:E2. simpl in N.
   pose proof (eager_spec g Hnd Hs pick_ok fuel _ _ _ E2) as D2.
   destruct o as [v'| |]; [| |congruence].
   - destruct (done_unique g Hnd Hs _ _ _ _ _ _ D D2) as [-> P]. eauto.
-  - exfalso. exact (done_ok_fail_absurd g Hnd _ _ _ D D2).
+  - exfalso. exact (done_ok_fail_absurd g Hnd Hs _ _ _ Hpf D D2).
 Qed.
 
 Lemma eager_starts_each_node_once g pick f out log left :
@@ -906,7 +936,26 @@ Proof.
   intros Hnd Hs. unfold eager. pose proof (start_ri g Hnd Hs) as S0.
   destruct (start_next Dag g) as [vE|ts s].
   - intros E. inversion E; subst. split; [constructor|intros y i []].
-  - intros E. destruct (run_eager_log g Hnd Hs pick f s ts _ _ _ _ _ S0 E) as [A B].
+  - destruct (existsb prefail ts); [intros E; inversion E; subst; split; [constructor|intros y i []]|].
+    intros E. destruct (run_eager_log g Hnd Hs pick f s ts _ _ _ _ _ S0 E) as [A B].
     split; [exact A|]. intros y i K. destruct (B y i K) as (K1 & n & K2 & K3 & _).
     split; [exact K1|]. rewrite <- K3. apply in_map, K2.
+Qed.
+
+(* for EVERY graph (failing nodes anywhere): two schedules agree on the outcome, or one of them fails -
+   never two different values, never a run that does not end; what F-C03c leaves open is exactly
+   "a value under one schedule, the failure of a node that does not feed END under another" *)
+Lemma eager_outcome_dichotomy g pick1 pick2 f1 f2 :
+  NoDup (map n_id g) -> ~ In START (map n_id g) ->
+  List.length g < f1 -> List.length g < f2 ->
+  fst (fst (eager pick1 g f1)) = fst (fst (eager pick2 g f2)) \/
+  fst (fst (eager pick1 g f1)) = OFail \/ fst (fst (eager pick2 g f2)) = OFail.
+Proof.
+  intros Hnd Hs H1 H2.
+  pose proof (eager_fuel_enough g pick1 f1 Hnd Hs H1) as N1.
+  pose proof (eager_fuel_enough g pick2 f2 Hnd Hs H2) as N2.
+  destruct (eager pick1 g f1) as [[o1 l1] r1] eqn:E1. destruct (eager pick2 g f2) as [[o2 l2] r2] eqn:E2.
+  simpl in *.
+  destruct o1 as [v1| |], o2 as [v2| |]; try congruence; auto.
+  left. destruct (eager_value_unique g pick1 pick2 f1 f2 v1 v2 l1 l2 r1 r2 Hnd Hs E1 E2) as [-> _]. reflexivity.
 Qed.
